@@ -31,7 +31,7 @@ DATA = {
 EDGES = np.linspace(0.0, 1.0, 6)
 SOFF_EDGES = np.linspace(0.0, 1.0, 3)
 DELTA = 0.1
-NGRID = 20
+NGRID = 18
 
 
 def base(spec):
@@ -70,8 +70,36 @@ def bkg_grid():
 
 # ---- independent leaf values (scipy only) -------------------------------------------------------
 
-def _z(spec, d, s, k):
+def sel_mask(spec, d):
+    """event selection of spec['evsel']: (K, E) bool — event i is paired with source k iff (i + k) % 3 != 0: unequal blocks,
+    events that no source selects (K = 1), empty blocks (one-event data set); None: no event selection method"""
+    if not spec.get('evsel'):
+        return None
+    E = len(DATA[d])
+    return np.array([[(i + k) % 3 != 0 for i in range(E)] for k in range(spec['K'])], dtype=bool).reshape(spec['K'], E)
+
+
+def sel_positions(spec, d, k):
+    """positions, within the array of selected events, of the events paired with source k (None: all)"""
+    m = sel_mask(spec, d)
+    if m is None:
+        return None
+    keep = np.any(m, axis=0)
+    pos = np.cumsum(keep) - 1
+    return [int(pos[i]) for i in range(m.shape[1]) if m[k, i]]
+
+
+def _x_sel(spec, d, k=None):
+    """x of the events paired with source k (k None: of all selected events)"""
     x = DATA[d]
+    m = sel_mask(spec, d)
+    if m is None:
+        return x
+    return x[np.any(m, axis=0)] if k is None else x[m[k]]
+
+
+def _z(spec, d, s, k):
+    x = _x_sel(spec, d, k)
     if spec['fields'] == 'none':
         return x
     return np.mod(x + src_ra(s, k), 1.0)
@@ -103,7 +131,7 @@ def world_man(spec, d, s, k, g):
 
 def world_bkg(spec, d, s):
     from scipy.interpolate import RegularGridInterpolator as RGI
-    x = DATA[d]
+    x = _x_sel(spec, d)
     if spec['fields'] != 'none':
         x = np.mod(x + 0.5 * src_ra(s, 0), 1.0)       # the event-level static data field 'xs'
     pd = RGI((EDGES,), bkg_grid(), method='linear', bounds_error=False, fill_value=0)(x[:, None])
@@ -115,13 +143,15 @@ def world_bkg(spec, d, s):
 def well_formed(spec, d, s):
     """hypothesis `WellFormed` of c06_no_truncation, checked on the leaf tables the model is given: every signal block of a
     trial is as long as the trial's background array (a violation is a fixture bug: MachineryError)"""
-    key = (tuple(sorted((k, str(v)) for k, v in spec.items() if k in ('K', 'fields', 'scale', 'norm'))), d, s)
+    key = (tuple(sorted((k, str(v)) for k, v in spec.items() if k in ('K', 'fields', 'scale', 'norm', 'evsel'))), d, s)
     if key in _WF:
         return
     from harness.core import MachineryError
     n = len(world_bkg(spec, d, s))
     g = float(grid_values(spec)[3])
-    if any(len(world_man(spec, d, s, k, g)) != n for k in range(spec['K'])):
+    want = [n if sel_positions(spec, d, k) is None else len(sel_positions(spec, d, k)) for k in range(spec['K'])]
+    if any(len(world_man(spec, d, s, k, g)) != want[k] for k in range(spec['K'])) or any(
+            p >= n for k in range(spec['K']) for p in (sel_positions(spec, d, k) or [])):
         raise MachineryError('C06 fixture: leaf tables are not well-formed for %r' % (key,))
     _WF.add(key)
 
@@ -304,7 +334,7 @@ def build(spec, d, s, cascade=True):
     G.d = d
     G.s = s
     G.events = events_of(G, d)
-    tdm.initialize_trial(shg_mgr=shg_mgr, pmm=pmm, events=G.events, n_events=N_OF[d])
+    tdm.initialize_trial(shg_mgr=shg_mgr, pmm=pmm, events=G.events, n_events=N_OF[d], evt_sel_method=evsel_of(G))
     single = fx.make_single_llhratio(cfg, pmm, shg_mgr, tdm, outer)
     G.single = single
     llhs = [single] + second_dataset(G, spec, sdw)
@@ -347,6 +377,15 @@ def _init2(G, new):
     G.tdm2.initialize_trial(shg_mgr=G.shg_mgr, pmm=G.pmm, events=G.events2, n_events=N2[G.d])
 
 
+def evsel_of(G):
+    """the event selection method of the trial about to be initialised (llh_fixtures.StubEventSelection on the current
+    SourceHypoGroupManager), or None"""
+    if G.kind == 'i3':
+        return None
+    m = sel_mask(G.spec, G.d)
+    return None if m is None else fx.StubEventSelection(G.shg_mgr, m)
+
+
 def events_of(G, d):
     """a new DataFieldRecordArray per call (as a new pseudo-data trial delivers)"""
     if G.kind == 'i3':
@@ -358,7 +397,7 @@ def op_init(G, d):
     """new trial on a newly created events array"""
     G.d = d
     G.events = events_of(G, d)
-    G.tdm.initialize_trial(shg_mgr=G.shg_mgr, pmm=G.pmm, events=G.events, n_events=N_OF[G.d])
+    G.tdm.initialize_trial(shg_mgr=G.shg_mgr, pmm=G.pmm, events=G.events, n_events=N_OF[G.d], evt_sel_method=evsel_of(G))
     _init2(G, True)
     G.multi.initialize_for_new_trial()
 
@@ -367,7 +406,7 @@ def op_tdm_init(G, d):
     """TrialDataManager.initialize_trial alone (new events array) — without the initialize_for_new_trial cascade"""
     G.d = d
     G.events = events_of(G, d)
-    G.tdm.initialize_trial(shg_mgr=G.shg_mgr, pmm=G.pmm, events=G.events, n_events=N_OF[G.d])
+    G.tdm.initialize_trial(shg_mgr=G.shg_mgr, pmm=G.pmm, events=G.events, n_events=N_OF[G.d], evt_sel_method=evsel_of(G))
     _init2(G, True)
 
 
@@ -403,7 +442,7 @@ def one_plus_alpha():
 
 def op_reinit_same(G):
     """new trial on the *same* events array instance (it carries the data fields the previous trial stored in it)"""
-    G.tdm.initialize_trial(shg_mgr=G.shg_mgr, pmm=G.pmm, events=G.events, n_events=N_OF[G.d])
+    G.tdm.initialize_trial(shg_mgr=G.shg_mgr, pmm=G.pmm, events=G.events, n_events=N_OF[G.d], evt_sel_method=evsel_of(G))
     _init2(G, False)
     G.multi.initialize_for_new_trial()
 
@@ -496,19 +535,19 @@ def op_evaluate(G, ns, xs):
         return dict(llh=float(llh), grads=[float(v) for v in grads], ratio=[], grad=[], other_zero=True,
                     interp_hit=None, pd_miss=None, bkg_miss=None)
     K = G.spec['K']
-    E = G.tdm.n_selected_events
+    src_idxs = np.asarray(G.tdm.src_evt_idxs[0])
     ratio = G.rec['ratio']
     names = [p.name for p in G.pmm.global_paramset.floating_params]
     rb, gb, other_zero = [], [], True
     for k in range(K):
-        rb.append(ratio[k * E:(k + 1) * E].tolist())
+        blk = src_idxs == k                 # the values of source k (with an event selection the blocks are unequal)
+        rb.append(ratio[blk].tolist())
         fid = names.index('gamma%d' % k if G.split else 'gamma')
         g = G.rec['grad'].get(fid)
-        g = np.zeros(K * E) if not isinstance(g, np.ndarray) else g
-        gb.append(g[k * E:(k + 1) * E].tolist())
+        g = np.zeros(len(src_idxs)) if not isinstance(g, np.ndarray) else g
+        gb.append(g[blk].tolist())
         if G.split:
-            rest = np.delete(g, np.s_[k * E:(k + 1) * E])
-            other_zero = other_zero and bool(np.all(rest == 0))
+            other_zero = other_zero and bool(np.all(g[~blk] == 0))
     return dict(llh=float(llh), grads=[float(v) for v in grads], ratio=rb, grad=gb, other_zero=other_zero,
                 interp_hit=(G.n_manifold_calls == 0),
                 pd_miss=sum(p._pdf.n_calls for p in G.sig_pdfs.values()),
@@ -681,7 +720,7 @@ def build_i3(spec, d, s):
     G.d = d
     G.s = s
     G.events = events_of(G, d)
-    G.tdm.initialize_trial(shg_mgr=G.shg_mgr, pmm=G.pmm, events=G.events, n_events=N_OF[G.d])
+    G.tdm.initialize_trial(shg_mgr=G.shg_mgr, pmm=G.pmm, events=G.events, n_events=N_OF[G.d], evt_sel_method=evsel_of(G))
     G.single = fx.make_single_llhratio(cfg, G.pmm, G.shg_mgr, G.tdm, G.outer)
     G.multi = fx.make_multi_llhratio(cfg, G.pmm, G.services[1], G.services[2], [G.single])
     G.multi.initialize_for_new_trial()
